@@ -491,4 +491,15 @@ def make_engine(I, label="self", version=None, identity=True):
     e.fields['is_asynchronous'] = False
     e.fields['_cryptography_engine'] = make_symbolic(I, ('model', 'Crypto'), label + "._cryptography_engine")
     e.meta['initial_fields'] = dict(e.fields)
+
+    def other_attribute(I2, obj, fname):
+        # an engine in the middle of its life: any instance attribute the contracts do not know
+        # (a cache, a flag left by an earlier request) holds an arbitrary, possibly None value
+        from .sym import SOpt
+        v = SOpt(fresh("%s.%s_isnone" % (label, fname), z3.BoolSort()), Opaque('object', "%s.%s" % (label, fname)))
+        obj.fields[fname] = v
+        obj.meta.setdefault('lazy_created', {})[fname] = v
+        obj.meta.setdefault('initial_fields', {})[fname] = v
+        return v
+    e.meta['dynamic'] = other_attribute
     return e
